@@ -869,8 +869,24 @@ func (w *W) RetainBytes(c any, label string, got []byte, want string) {
 		if cur := p.current(); cur != p.want {
 			w.Fail(p.c, "earlier-result-changed-by-later-call", fmt.Sprintf("%s: a result that read %q when it was returned reads %q after a later call", label, p.want, cur))
 		}
+		// the earlier result belongs to the caller, who now reuses its storage for something else
+		for i := range p.bytes {
+			p.bytes[i] = '#'
+		}
 	}
 	w.retained[label] = &retained{c: c, bytes: got, isBytes: true, want: want}
+}
+
+// Owned checks that a returned byte slice belongs to the caller: the caller overwrites it, and produce() - the same call
+// again - must still give want. A library that hands out storage it keeps using would now show the caller's scribble.
+func (w *W) Owned(c any, label string, got []byte, want string, produce func() ([]byte, error)) {
+	for i := range got {
+		got[i] = '#'
+	}
+	again, err := produce()
+	if err != nil || string(again) != want {
+		w.Fail(c, "result-storage-shared", fmt.Sprintf("%s: after the caller overwrote the bytes it had been given, the same call gives %q, %v; want %q", label, again, err, want))
+	}
 }
 
 type retained struct {
